@@ -25,13 +25,16 @@ ASSUMPTIONS = ['individual likelihoods are arbitrary functions of their paramete
 KINDS = ['Gc', 'Gnc', 'LNc', 'LNnc', 'TG', 'P', 'H']
 
 
-def make_sub(chi, code, nd, nc, sel):
+def make_sub(chi, code, nd, nc, sel, n_ids=None):
     cls = {0: (chi.GaussianModel, {}), 1: (chi.GaussianModel, {'centered': False}),
            2: (chi.LogNormalModel, {}), 3: (chi.LogNormalModel, {'centered': False}),
            4: (chi.TruncatedGaussianModel, {}), 5: (chi.PooledModel, {}), 6: (chi.HeterogeneousModel, {})}[code]
     base = cls[0](n_dim=nd, **cls[1])
     if nc == 0:
         return base
+    if code == 6 and n_ids is not None:
+        # a heterogeneous model has one parameter per individual and dimension only once it knows them
+        base.set_n_ids(n_ids)
     m = chi.CovariatePopulationModel(base, chi.LinearCovariateModel(nc))
     if sel is not None:
         m.set_population_parameters(sel)
@@ -51,7 +54,7 @@ def gen_case(rng, force=None):
         nd = int(rng.integers(1, 4))
         nc = 0
         sel = None
-        if code in (0, 1, 2, 3, 5) and rng.random() < 0.3:
+        if rng.random() < 0.3:
             nc = int(rng.integers(1, 3))
             if rng.random() < 0.5:
                 allp = [[p, d] for p in range(per_dim(code, n_ids)) for d in range(nd)]
@@ -148,7 +151,7 @@ def run_case(ctx, chi, rng, n_ids, subs, tag='gen'):
                                '+cov' if any(nc for _, _, nc, _ in subs) else '', '+reduced' if reduced else ''),
              nontrivial=key if (special_not_last or wrapped or len(subs) >= 3) else False, sample=inp)
     # --- build chi objects
-    models = [make_sub(chi, *s) for s in subs]
+    models = [make_sub(chi, *s, n_ids=n_ids) for s in subs]
     pm = models[0] if bare else chi.ComposedPopulationModel(models)
     lls = []
     for i in range(n_ids):
@@ -168,7 +171,7 @@ def run_case(ctx, chi, rng, n_ids, subs, tag='gen'):
     names_before = pm.get_parameter_names() if late_n_ids else None
     pm_early = pm
     if late_n_ids:
-        models2 = [make_sub(chi, *s) for s in subs]
+        models2 = [make_sub(chi, *s, n_ids=n_ids) for s in subs]
         pm_twin = models2[0] if bare else chi.ComposedPopulationModel(models2)
         pm_twin.set_n_ids(n_ids)
         full_top_names = pm_twin.get_parameter_names()
@@ -296,6 +299,16 @@ def run_case(ctx, chi, rng, n_ids, subs, tag='gen'):
         if not math.isnan(total):
             ctx.spec('C02.value_is_sum_of_individuals_plus_population', core.close(v, total), inp,
                      {'chi': v, 'spec': total})
+    # the same whole numbers as floats, as integers and as a list of Python ints are the same parameters
+    whole = np.where(np.abs(params) < 0.3, 0.0, np.where(params < 1.0, 1.0, 2.0))
+    wv = ctx.number_types('C02.whole_number_parameters', lambda p: float(hll(p)), whole, inp)
+    if wv is not None and ctx.cases % 2 == 0:
+        bw, tw = whole[:len(bottom)], top_full.copy()
+        tw[free_mask] = whole[len(bottom):]
+        spw = spec_hier(subs, n_ids, bw, tw, cov, lls)
+        if spw is not None and not math.isnan(spw[0]):
+            ctx.spec('C02.value_is_sum_of_individuals_plus_population', core.close(wv, spw[0]),
+                     dict(inp, params=whole), {'chi': wv, 'spec': spw[0]})
     # posterior = prior + hierarchical likelihood
     if ctx.cases % 4 == 0 and int(np.sum(free_mask)) > 0:
         prior = pints.ComposedLogPrior(*[pints.GaussianLogPrior(1.0, 3.0) for _ in range(int(np.sum(free_mask)))])
